@@ -262,8 +262,13 @@ func runHistory(seed uint64, idx, nBlocks int, cnt *Counters) (*finding, int, []
 	if route, msg := invariants(B, height, t); route != "" {
 		return &finding{height, "imported-invariant-broken:" + route, msg, cfg}, nTx, sample
 	}
+	// raw store comparison of the Kava modules (and bank): the imported state must be the
+	// same state, including derived indexes that the genesis JSON does not show
+	if n, m := world.ExtendedInvariants(B, B.NewContext(true, tmproto.Header{Height: height, Time: t, ChainID: app.TestChainId})); n != "" {
+		return &finding{height, "imported-state-incoherent:" + n, m, cfg}, nTx, sample
+	}
 	// ---- same follow-up blocks on both
-	for k := 0; k < 3; k++ {
+	for k := 0; k < 6; k++ {
 		height++
 		t = t.Add(world.NextGap(r))
 		sa, pa := world.Begin(A, height, t)
@@ -297,6 +302,12 @@ func runHistory(seed uint64, idx, nBlocks int, cnt *Counters) (*finding, int, []
 			if va.Sub(vb).Abs().GT(sdkmath.NewInt(3)) {
 				return &finding{height, "followup-balance-differs", fmt.Sprintf("%s: original %s imported %s", key, va, vb), cfg}, nTx, sample
 			}
+		}
+		if n, m := world.ExtendedInvariants(B, B.NewContext(true, tmproto.Header{Height: height, Time: t, ChainID: app.TestChainId})); n != "" {
+			return &finding{height, "imported-state-incoherent-after-followup:" + n, m, cfg}, nTx, sample
+		}
+		if route, msg := invariants(B, height, t); route != "" {
+			return &finding{height, "imported-invariant-broken-after-followup:" + route, msg, cfg}, nTx, sample
 		}
 		cnt.Inc("followup-blocks")
 	}
